@@ -26,7 +26,18 @@ Definition has_asm_opt (loc : string) (tpl : list string) (opt : string) (presen
 Definition count_file (file : string) : nat :=
   length (filter (fun e => match e with (l, _, _, _) => String.prefix file l end) asm_table).
 
+(* no asm! block of the crate may be `pure`: every one of them reads or changes machine state that
+   can differ between two executions with the same operands (a `pure` block may be merged with
+   an identical one, hoisted out of a loop or dropped when its result is unused) *)
+Definition asm_no_pure : bool :=
+  forallb (fun e => match e with (_, _, _, os) => negb (has_opt "pure" os) end) asm_table.
+(* the exact option list of a block *)
+Definition has_asm_opts (loc : string) (tpl opts : list string) : bool :=
+  existsb (fun e => match e with (l, t, _, os) => String.eqb l loc && list_eqb t tpl && list_eqb os opts end)
+          asm_table.
+
 Definition pins_C17 : bool :=
+  asm_no_pure &&
   has_asm "instructions/interrupts.rs::enable" ["sti"] [] &&
   has_asm "instructions/interrupts.rs::disable" ["cli"] [] &&
   (* one block, the two instructions back to back *)
@@ -37,6 +48,13 @@ Definition pins_C17 : bool :=
   has_asm "registers/rflags.rs::read_raw" ["pushfq; pop {}"] ["out(reg) r"].
 
 Definition pins_C18 : bool :=
+  asm_no_pure &&
+  has_asm_opts "instructions/port.rs::read_from_port" ["in al, dx"] ["nomem"; "nostack"; "preserves_flags"] &&
+  has_asm_opts "instructions/port.rs::read_from_port" ["in ax, dx"] ["nomem"; "nostack"; "preserves_flags"] &&
+  has_asm_opts "instructions/port.rs::read_from_port" ["in eax, dx"] ["nomem"; "nostack"; "preserves_flags"] &&
+  has_asm_opts "instructions/port.rs::write_to_port" ["out dx, al"] ["nomem"; "nostack"; "preserves_flags"] &&
+  has_asm_opts "instructions/port.rs::write_to_port" ["out dx, ax"] ["nomem"; "nostack"; "preserves_flags"] &&
+  has_asm_opts "instructions/port.rs::write_to_port" ["out dx, eax"] ["nomem"; "nostack"; "preserves_flags"] &&
   has_asm "instructions/port.rs::read_from_port" ["in al, dx"] ["out(""al"") value"; "in(""dx"") port"] &&
   has_asm "instructions/port.rs::read_from_port" ["in ax, dx"] ["out(""ax"") value"; "in(""dx"") port"] &&
   has_asm "instructions/port.rs::read_from_port" ["in eax, dx"] ["out(""eax"") value"; "in(""dx"") port"] &&
@@ -52,6 +70,7 @@ Definition pins_C18 : bool :=
   has_asm_opt "instructions/port.rs::write_to_port" ["out dx, eax"] "nomem" true.
 
 Definition pins_C11 : bool :=
+  asm_no_pure &&
   has_asm "instructions/tlb.rs::flush" ["invlpg [{}]"] ["in(reg) addr.as_u64()"] &&
   has_asm "instructions/tlb.rs::flush_pcid" ["invpcid {0}, [{1}]"] ["in(reg) kind"; "in(reg) &desc"] &&
   has_asm "instructions/tlb.rs::tlbsync" ["tlbsync"] [] &&
@@ -61,6 +80,7 @@ Definition pins_C11 : bool :=
   has_asm "registers/control.rs::write_raw_impl" ["mov cr3, {}"] ["in(reg) value"].
 
 Definition pins_C16 : bool :=
+  asm_no_pure &&
   has_asm "registers/control.rs::read_raw" ["mov {}, cr0"] ["out(reg) value"] &&
   has_asm "registers/control.rs::write_raw" ["mov cr0, {}"] ["in(reg) value"] &&
   has_asm "registers/control.rs::read_raw" ["mov {}, cr2"] ["out(reg) value"] &&
